@@ -80,6 +80,38 @@ def capture_runs():
     return runs
 
 
+def big_runs():
+    """Fragmented messages of 40000 .. 200000 bytes (a Finished message / a heartbeat with that much payload), cut into
+    records of 16384 / 16640 / 4096 bytes, each followed by two short records of the same type and one of another."""
+    fill = lambda seed, n: {"lit": [], "fill": [seed % 256, 7, n]}
+    runs = []
+    for total in (40000, 65535, 65536, 65537, 65538, 65539, 100000, 131072, 131073, 200000):
+        for frag in (16384, 16640, 4096):
+            if frag == 4096 and total > 70000:
+                continue
+            for ct in (22, 24):
+                if ct == 22:
+                    body = total - 4
+                    head = [20, (body >> 16) & 255, (body >> 8) & 255, body & 255]
+                else:
+                    if total - 3 > 65535:
+                        continue
+                    body = total - 3
+                    head = [1, (body >> 8) & 255, body & 255]
+                ops, sent = [], 0
+                while sent < total:
+                    n = min(frag, total - sent)
+                    parts = ([{"lit": head, "fill": [0, 0, 0]}, fill(sent, n - len(head))] if sent == 0 else [fill(sent, n)])
+                    ops.append({"op": "parse_record", "ct": ct, "ver": 771, "data": parts})
+                    sent += n
+                tail = [20, 0, 0, 1, 9] if ct == 22 else [1, 0, 1, 5]
+                ops.append({"op": "parse_record", "ct": ct, "ver": 771, "data": [{"lit": tail[:2], "fill": [0, 0, 0]}]})
+                ops.append({"op": "parse_record", "ct": ct, "ver": 771, "data": [{"lit": tail[2:], "fill": [0, 0, 0]}]})
+                ops.append({"op": "parse_record", "ct": 23, "ver": 771, "data": [{"lit": [1, 2, 3], "fill": [0, 0, 0]}]})
+                runs.append({"id": "big:%d:%d:%d" % (ct, total, frag), "ops": ops})
+    return runs
+
+
 def vlib_bytes(op):
     out = []
     for p in op["data"]:
@@ -136,6 +168,17 @@ def run(tier):
         recorded.append({"id": r["id"], "ops": r["ops"], "results": couts[r["id"]]["results"]})
     rep.cov["capture_runs"] = {"runs": len(cruns), "operations": sum(len(r["ops"]) for r in cruns),
                                "delivered_messages": sum(len(x["res"].get("v") or []) for r in cruns for x in couts[r["id"]]["results"] if x["res"]["k"] == "ok")}
+    # (b++) completions at REAL sizes: messages whose accumulated length lands on and around 2^16 and 2^17 (where the pseudo
+    #       header's 16-bit length wraps), in maximum-size fragments, handshake and heartbeat, followed by short records
+    big_in, big_out = os.path.join(d3, "big_runs.in.ndjson"), os.path.join(d3, "big_runs.out.ndjson")
+    bruns = big_runs()
+    vlib.write_ndjson(big_in, [{"id": r["id"], "prefix": [], "tests": r["ops"], "seq": True} for r in bruns])
+    rc, _ = vlib.run_harness(binary, ["defrag", big_in, big_out])
+    bouts = {o["id"]: o for o in vlib.read_ndjson(big_out)}
+    for r in bruns:
+        if r["id"] not in bouts:
+            raise vlib.ToolError("no observation for big run %s" % r["id"])
+        recorded.append({"id": r["id"], "ops": r["ops"], "results": bouts[r["id"]]["results"]})
     slim = os.path.join(d3, "runs.slim.ndjson")
     vlib.write_ndjson(slim, [{"id": r["id"], "ops": r["ops"],
                               "results": [{"res": x["res"], "inprog": x["inprog"], "buflen": x["buflen"], "rem_ok": x["rem_ok"]} for x in r["results"]]}
